@@ -137,6 +137,7 @@ def build_objs(cfg, files, san="asan", extra=(), tag="", cc="gcc", opt="-O1"):
     key = file_hash(repo_sources() + [os.path.join(cfg["incdir"], "plibsysconfig.h")], " ".join(flags) + cc + tag)
     d = os.path.join(CACHE, "obj-" + key)
     os.makedirs(d, exist_ok=True)
+    _touch(d)
 
     def one(f):
         o = os.path.join(d, f.replace("/", "_") + ".o")
@@ -162,11 +163,29 @@ class BuildError(Exception):
     pass
 
 
-def _gc_cache(prefix, keep):
-    ds = [os.path.join(CACHE, x) for x in os.listdir(CACHE) if x.startswith(prefix)]
-    ds.sort(key=lambda p: os.path.getmtime(p), reverse=True)
-    for p in ds[keep:]:
-        shutil.rmtree(p, ignore_errors=True)
+def _touch(d):
+    try:
+        os.utime(d, None)
+    except OSError:
+        pass
+
+
+def _gc_cache(prefix, keep, min_age_s=3 * 3600):
+    """drop the oldest cache directories beyond `keep` — but never one used within the last hours: another check may be
+    running at the same time and still link against it (a directory's mtime is refreshed on every use)"""
+    now = time.time()
+    ds = []
+    for x in os.listdir(CACHE):
+        if x.startswith(prefix):
+            p = os.path.join(CACHE, x)
+            try:
+                ds.append((os.path.getmtime(p), p))
+            except OSError:
+                pass
+    ds.sort(reverse=True)
+    for mt, p in ds[keep:]:
+        if now - mt > min_age_s:
+            shutil.rmtree(p, ignore_errors=True)
 
 
 def build_harness(name, cfg, harness_srcs, repo_files=None, san="asan", extra=(), link=(), cc="gcc", tag="", opt="-O1"):
@@ -185,6 +204,7 @@ def build_harness(name, cfg, harness_srcs, repo_files=None, san="asan", extra=()
     key = file_hash(hdeps + objs + repo_sources(), " ".join(flags + list(link)) + cc + tag)
     d = os.path.join(CACHE, "bin-" + key)
     os.makedirs(d, exist_ok=True)
+    _touch(d)
     exe = os.path.join(d, name)
     if not os.path.exists(exe):
         tmp = exe if COV else exe + ".%d.tmp" % os.getpid()
